@@ -54,7 +54,14 @@ def pick_tables(ctx, tabs):
 def pick_codes(ctx):
     plan = [p for p in c02.plan(ctx) if p[1] in ("ml", "syn", "bm", "reed")]
     if ctx.thorough:
-        return plan
+        # the catalogue has several hundred (code, decoder) pairs: a seeded sample of 40 / 20 per decoder kind keeps the tier under half an hour
+        byk = {}
+        for p in plan:
+            byk.setdefault(p[1], []).append(p)
+        out = []
+        for kind, lst in byk.items():
+            out += ctx.rng.sample(lst, min(len(lst), 40 if kind in ("ml", "syn") else 20))
+        return out
     byk = {}
     for p in plan:
         byk.setdefault(p[1], []).append(p)
@@ -127,7 +134,7 @@ def corr(ctx):
         if verb and name not in defined:
             ops.append(Op(c01.defcode_line(c), "ok", nontrivial=False))
             defined.add(name)
-        tsel = tnames if ctx.thorough and n <= 16 else [tnames[(ci + j * 3) % len(tnames)] for j in range(4)]
+        tsel = [tnames[(ci * 7 + j * 5) % len(tnames)] for j in range(16)] if ctx.thorough and n <= 16 else [tnames[(ci + j * 3) % len(tnames)] for j in range(4)]
         for tn in dict.fromkeys(tsel):
             inst, pts, lo, hi = tabs[tn]
             b = inst.b
